@@ -23,7 +23,7 @@ PO_NOTE = "sequential consistency; buffers summarised on their length counter; k
 SEQ_NOTE = "kernel calls replaced by nondeterministic stubs with stated contracts; counterexamples re-executed concretely in the interpreter (stubs cannot be installed in the native build)"
 CLAIMED.update({
  "C05": dict(cat="model_checking", tech="partial-order (event/clock) SMT encoding of per-thread symbolic executions of go/ssa",
-   text="The real Close/onClose/onHup/closeCallback/onProcess/locker/FDOperator.Control code is executed symbolically per thread (poller with hang-up goroutine, 1-2 closers, handler tasks spawned through runner.RunTask, handler returning/consuming/closing/panicking); every interleaving is a clock assignment; exactly-once, ordering and no-overlap monitors are decided as safety queries, 'everything torn down' as a quiescence query.",
+   text="The real Close/onClose/onHup/closeCallback/onProcess/locker/FDOperator.Control code is executed symbolically per thread (poller with hang-up goroutine, 1-2 closers, handler tasks spawned through runner.RunTask, handler consuming/closing/panicking; one close callback in the handler configurations, two in the handler-less one); every interleaving is a clock assignment; exactly-once, ordering and no-overlap monitors are decided as safety queries, 'everything torn down' as a quiescence query.",
    note=PO_NOTE, ref="5.7"),
  "C06": dict(cat="model_checking", tech="partial-order (event/clock) SMT encoding of per-thread symbolic executions of go/ssa",
    text="inputAck/onRequest/onProcess/SetOnRequest/onConnect hand-off executed symbolically per thread for 2 deliveries, SetOnRequest racing a delivery, OnConnect still running, delivery + hang-up; mutual exclusion of handler invocations (safety) and 'no quiescent state with stranded input' (quiescence with maximality).",
